@@ -261,6 +261,7 @@ pub struct Ctx {
     /// wall-clock budget after which streams stop generating (reported as truncated)
     pub deadline: Option<Instant>,
     last_lazy: Option<u64>,
+    shrinks_done: u32,
     /// failures whose signature matches are counted as resource-exhaustion events, not reported
     pub resource_filter: Option<fn(&str) -> bool>,
 }
@@ -472,6 +473,17 @@ impl Ctx {
         J: Fn(&S::Value) -> Value,
         E: Fn(&S::Value) -> Eval,
     {
+        self.explore_r(stream, n, strat, to_json, eval, None)
+    }
+
+    /// Like `explore`, with a case-specific reducer run after the library's shrinking:
+    /// `post(value, fail)` returns a smaller failing case (JSON + failure) if it finds one.
+    pub fn explore_r<S, J, E>(&mut self, stream: &str, n: u64, strat: &S, to_json: J, eval: E, post: Option<&dyn Fn(&S::Value, &Fail) -> Option<(Value, Fail)>>)
+    where
+        S: Strategy,
+        J: Fn(&S::Value) -> Value,
+        E: Fn(&S::Value) -> Eval,
+    {
         for idx in 0..n {
             if !self.mine(idx) {
                 continue;
@@ -493,6 +505,10 @@ impl Ctx {
             let case = to_json(&v);
             let Some(ev) = self.run_case(&case, || eval(&v)) else { continue };
             if let Some(f0) = ev.fail {
+                self.shrinks_done += 1;
+                if self.shrinks_done > 4 {
+                    continue;
+                }
                 // shrink with the library's value tree
                 let mut best: Option<(Value, Fail)> = None;
                 let t_shrink = Instant::now();
@@ -500,7 +516,7 @@ impl Ctx {
                 if tree.simplify() {
                     loop {
                         steps += 1;
-                        if steps > 3000 || t_shrink.elapsed() > Duration::from_secs(20) {
+                        if steps > 400 || t_shrink.elapsed() > Duration::from_secs(8) {
                             break;
                         }
                         let cur = tree.current();
@@ -518,15 +534,27 @@ impl Ctx {
                         }
                     }
                 }
-                if let Some((cj, f)) = best {
-                    // replace the unshrunk entry
+                let mut final_case: Option<(Value, Fail)> = best.as_ref().map(|(cj, f)| (cj.clone(), f.clone()));
+                if let Some(post) = post {
+                    let cur_val = tree.current();
+                    // the tree's current value may be a passing candidate: re-evaluate
+                    let (base_val, base_fail) = {
+                        let ev3 = self.guarded_eval(|| eval(&cur_val));
+                        match ev3.fail {
+                            Some(f) if sig_class(&f.sig) == sig_class(&f0.sig) => (cur_val, f),
+                            _ => (v, f0.clone()),
+                        }
+                    };
+                    CASE_START_MS.store(now_ms(self.t0), Ordering::SeqCst);
+                    let r = guarded(|| post(&base_val, &base_fail));
+                    CASE_START_MS.store(0, Ordering::SeqCst);
+                    if let Ok(Some((cj, f))) = r {
+                        final_case = Some((cj, f));
+                    }
+                }
+                if let Some((cj, f)) = final_case {
                     if let Some(pos) = self.st.failures.iter().rposition(|x| x.case == case) {
-                        self.st.failures[pos] = Failure {
-                            case: cj,
-                            sig: f.sig,
-                            detail: f.detail.chars().take(4000).collect(),
-                            shrunk: true,
-                        };
+                        self.st.failures[pos] = Failure { case: cj, sig: f.sig, detail: f.detail.chars().take(4000).collect(), shrunk: true };
                         self.maybe_checkpoint(true);
                     }
                 }
@@ -836,6 +864,7 @@ pub fn shard_main(prop: &'static Prop, tier: Tier, seed: u64, shard: usize, nsha
         max_failures: 24,
         deadline: None,
         last_lazy: None,
+        shrinks_done: 0,
         resource_filter: None,
     };
     let h = std::thread::Builder::new()
@@ -1070,6 +1099,12 @@ pub fn run_check(prop: &'static Prop, tier: Tier, seed: u64) -> i32 {
                 all_hashes.insert(u64::from_le_bytes(ch.try_into().unwrap()));
             }
         }
+    }
+    // generator-side exclusions are reported by classes named "excluded:<shape>"
+    let ex: Vec<(String, u64)> = m.classes.iter().filter(|(k, _)| k.starts_with("excluded:")).map(|(k, v)| (k.clone(), *v)).collect();
+    for (k, v) in ex {
+        m.classes.remove(&k);
+        *m.excluded.entry(k["excluded:".len()..].to_string()).or_insert(0) += v;
     }
     m.lowhash.sort_by_key(|x| x.0);
     m.lowhash.dedup_by_key(|x| x.0);
